@@ -38,7 +38,18 @@ func init() {
 			"time.Time is compared by instant under TimeFormat \"time\"; big numbers by text",
 			"zero-capacity slices are exempt from the pointer walk (nothing can be written through them)",
 		},
-		Findings: map[string]func(v *mon.Violation) bool{},
+		Findings: map[string]func(v *mon.Violation) bool{
+			// sen's colour writer ends the values it has to decompose first (json.Number among them) with
+			// the NoColor sequence twice (pinned by sen/color_test.go); the gen.Big twin gets it once
+			"senColorDoubleNoColor": func(v *mon.Violation) bool {
+				if !strings.HasPrefix(v.Entry, "sen.String(color") || v.Kind != "gen-text-differs-from-simple-text" {
+					return false
+				}
+				m, _ := v.Case.(map[string]any)
+				eq, _ := m["equal_up_to_repeated_nocolor"].(bool)
+				return eq
+			},
+		},
 		Floors: func(tier string, cover map[string]int64, evals int64) []string {
 			var out []string
 			for _, k := range []string{"op:Generify+Simplify", "op:GenAlter+Alter", "op:alt.Alter", "op:typed-containers", "op:Dup", "op:Decompose", "op:Node.Dup", "op:writers", "op:gen.Parser-vs-Generify", "op:gen.ParseReader-refill-boundary", "alias:pointer-walk", "alias:mutate-copy", "alias:mutate-original", "kind:time", "kind:big", "enumerated-trees"} {
@@ -373,6 +384,36 @@ func (ck *checker) tree(v any, enum bool) {
 			{"sen.String", func(x any) string { return sen.String(x, o) }},
 			{"pretty.JSON", func(x any) string { return pretty.JSON(x, o) }},
 			{"pretty.SEN", func(x any) string { return pretty.SEN(x, o, 20.2) }},
+			// option combinations that have twin code paths for gen and simple trees (colour, tab, omit,
+			// width and alignment of the pretty writer)
+			{"oj.JSON(color)", func(x any) string { return oj.JSON(x, colorOpts(0)) }},
+			{"oj.JSON(color,indent)", func(x any) string { return oj.JSON(x, colorOpts(2)) }},
+			{"oj.JSON(tab)", func(x any) string {
+				return oj.JSON(x, &ojg.Options{Sort: true, Tab: true, TimeFormat: time.RFC3339Nano})
+			}},
+			{"oj.JSON(omitnil)", func(x any) string {
+				return oj.JSON(x, &ojg.Options{Sort: true, OmitNil: true, TimeFormat: time.RFC3339Nano})
+			}},
+			{"oj.JSON(omitempty,indent)", func(x any) string {
+				return oj.JSON(x, &ojg.Options{Sort: true, OmitEmpty: true, Indent: 1, TimeFormat: time.RFC3339Nano})
+			}},
+			{"sen.String(indent)", func(x any) string {
+				return sen.String(x, &ojg.Options{Sort: true, Indent: 2, TimeFormat: time.RFC3339Nano})
+			}},
+			{"sen.String(color)", func(x any) string { return sen.String(x, colorOpts(0)) }},
+			{"sen.String(color,tab)", func(x any) string { o := colorOpts(0); o.Tab = true; return sen.String(x, o) }},
+			{"sen.String(omitempty)", func(x any) string {
+				return sen.String(x, &ojg.Options{Sort: true, OmitEmpty: true, TimeFormat: time.RFC3339Nano})
+			}},
+			{"pretty.JSON(color)", func(x any) string { return pretty.JSON(x, colorOpts(0), 30.2) }},
+			{"pretty.JSON(align)", func(x any) string { return pretty.JSON(x, o, 40.3, true) }},
+			{"pretty.JSON(narrow)", func(x any) string { return pretty.JSON(x, o, 12.1) }},
+			{"pretty.SEN(color)", func(x any) string { return pretty.SEN(x, colorOpts(0), 24.2) }},
+			{"pretty.SEN(align)", func(x any) string { return pretty.SEN(x, o, 40.3, true) }},
+			{"pretty.SEN(color,align)", func(x any) string { return pretty.SEN(x, colorOpts(0), 36.2, true) }},
+			{"pretty.JSON(omitnil)", func(x any) string {
+				return pretty.JSON(x, &ojg.Options{Sort: true, OmitNil: true, TimeFormat: time.RFC3339Nano}, 28.2)
+			}},
 		} {
 			var a, b string
 			if pn := mon.Guard(func() { a, b = w.f(g), w.f(v) }); pn != nil {
@@ -381,7 +422,20 @@ func (ck *checker) tree(v any, enum bool) {
 			}
 			c.Eval(2)
 			if a != b {
-				c.Violation(w.name, "gen-text-differs-from-simple-text", "", cs, clip(b), clip(a))
+				cs2 := cs
+				if strings.HasPrefix(w.name, "sen.String(color") {
+					collapse := func(t string) string {
+						for strings.Contains(t, "</></>") {
+							t = strings.ReplaceAll(t, "</></>", "</>")
+						}
+						return t
+					}
+					cs2 = map[string]any{"equal_up_to_repeated_nocolor": collapse(a) == collapse(b)}
+					for k, x := range cs {
+						cs2[k] = x
+					}
+				}
+				c.Violation(w.name, "gen-text-differs-from-simple-text", "", cs2, clip(b), clip(a))
 			}
 		}
 	}
@@ -760,4 +814,10 @@ func sprinkle(r *rand.Rand, v any) any {
 		return json.Number("123456789012345678901234567890")
 	}
 	return v
+}
+
+// colorOpts are sorted options with visible colour markers.
+func colorOpts(indent int) *ojg.Options {
+	return &ojg.Options{Sort: true, Indent: indent, TimeFormat: time.RFC3339Nano, Color: true,
+		SyntaxColor: "<s>", KeyColor: "<k>", NullColor: "<n>", BoolColor: "<b>", NumberColor: "<d>", StringColor: "<q>", TimeColor: "<t>", NoColor: "</>"}
 }
